@@ -249,7 +249,7 @@ func c13URLs(thorough bool) []string {
 	rng := verifRand()
 	n := 2200
 	if thorough {
-		n = 12000 // x 48 clients: the volume of verdicts of the earlier 40000 x 12
+		n = 8000 // x 48 clients
 	}
 	pick := func(l []string) string { return l[rng.Intn(len(l))] }
 	for i := 0; i < n; i++ {
@@ -341,7 +341,7 @@ func lastLabelNumeric(h string) bool {
 }
 
 func TestVerif_C13(t *testing.T) {
-	res := newVerifResult("redirect_uri strings from an adversarial URL grammar (scheme x userinfo x host x port x path x query, biased to one defect per URL; 2200 quick / 12000 thorough, plus a fixed list) x 12 client configurations x {client with a secret, public client} x {every other client option found by reflection on, off} (domains only, patterns only, both, none, leading-dot domain, two domains, empty domain, unanchored pattern, and four with patterns the regexp library refuses: alone, with domains, before and after a usable one); CanRedirectToURL, CorsOriginAllowed, generic CORS check and GET /idp/oauth2/authorize; non-trivial = url.Parse accepted the string with scheme https; distinct by (url, verdict vector)")
+	res := newVerifResult("redirect_uri strings from an adversarial URL grammar (scheme x userinfo x host x port x path x query, biased to one defect per URL; 2200 quick / 8000 thorough, plus a fixed list) x 12 client configurations x {client with a secret, public client} x {every other client option found by reflection on, off} (domains only, patterns only, both, none, leading-dot domain, two domains, empty domain, unanchored pattern, and four with patterns the regexp library refuses: alone, with domains, before and after a usable one); CanRedirectToURL, CorsOriginAllowed, generic CORS check and GET /idp/oauth2/authorize; non-trivial = url.Parse accepted the string with scheme https; distinct by (url, verdict vector)")
 	baseConfigs := []c13Config{
 		{name: "domains", domains: []string{"example.com"}, patterns: nil},
 		{name: "patterns", domains: nil, patterns: []string{`^https://[^/@?#\\]*\.example\.com(:[0-9]+)?(/[^?#]*)?$`}},
